@@ -49,11 +49,22 @@ class Program:
         self._callgraph = None
 
     # -- lookup ---------------------------------------------------------------------------
-    def fn(self, key):
+    def fn(self, key, inline=True):
+        """the function a rule is anchored on; private helpers it calls are virtually inlined
+        (inline.py) so that extracting a check into a helper does not change verdicts."""
         f = self.funcs.get(key)
         if f is None:
             raise AnchorLost("function %s not found in facts" % key)
-        return f
+        if not inline:
+            return f
+        cache = self.__dict__.setdefault("_inlined", {})
+        if key not in cache:
+            from . import inline as _inline
+            try:
+                cache[key] = _inline.inline_helpers(self, f)
+            except Exception:
+                cache[key] = f
+        return cache[key]
 
     def fns_matching(self, regex):
         r = re.compile(regex)
